@@ -193,6 +193,10 @@ fn node_scenario(a: &[&str]) -> String {
                     c.crypto.trusted_keys = trusted.iter().map(|k| crate::util::to_base62(k)).collect();
                     let (plain, speeds) = parse_algos(p[9]);
                     MockSocket::set_nat(p.len() > 10 && p[10] == "nat");
+                    if p.len() > 10 && p[10].starts_with("adv") {
+                        // advertise_addresses: the node reports another address as one of its own
+                        c.advertise_addresses = vec![format!("[::]:{}", &p[10][3..])];
+                    }
                     if p.len() > 10 && p[10] == "hkf" {
                         // a lasting local fault in a housekeeping step: a beacon file that cannot be read (housekeep then returns
                         // early at the beacon step on every tick)
